@@ -15,6 +15,7 @@ Clauses of the property and where they are stated (all over `Rat`, any table siz
   * "whenever fitting stops before max_iter iterations, best_gap_ < nu" early_stop_lt_nu, best_iter_spec
 -/
 import FairModel.Lemmas.Saddle
+import FairModel.Lemmas.EGLoop
 
 namespace C08
 open Saddle Finset
@@ -212,5 +213,133 @@ example : bestIter [3, 1, 2, 1 + 1/200000000, 5] = some 3 := by decide +kernel
 example : runLen (vec [9, 9, 9, 9, 9, 9, 1/2, 0]) 1 20 = 7 := by decide +kernel
 example : runLen (vec [0, 0, 0, 0, 0, 0]) 1 4 = 4 := by decide +kernel
 example : (project 1 (vec [3, 1])) 0 = 2 ∧ (project 1 (vec [3, 1])) 1 = 0 := by decide +kernel
+
+/-! ## The main loop (`Model/EGLoop.lean`): theorems for EVERY run length and ANY oracle answers
+
+`EGLoop.runN P O n` is the state after `n` passes through the body of `for t in range(0, self.max_iter)`
+(`run` = `max_iter` passes); `O.h` answers the base-learner calls, `O.lp` the (non-cached) LP solves, `P.e` is the
+exponential, of which only positivity is used.  The closed expressions are `Generated/EGLoopGen.lean`. -/
+section Loop
+open EGLoop
+
+/-- standing assumptions on the parameters: `B = 1/eps > 0`, `eta0 >= 0`, and `e` (np.exp) positive -/
+structure LoopHyp (P : Params) : Prop where
+  B_pos : 0 < P.B
+  e_pos : ∀ x, 0 < P.e x
+  eta0_nonneg : 0 ≤ P.eta0
+
+theorem etaInit_nonneg {P : Params} (h : LoopHyp P) : 0 ≤ EGLoopGen.etaInit P.eta0 P.B := by
+  unfold EGLoopGen.etaInit
+  exact div_nonneg h.eta0_nonneg (le_of_lt h.B_pos)
+
+theorem loop_inv {P : Params} (O : Oracles) (h : LoopHyp P) (n : Nat) : Inv P O (runN P O n) :=
+  inv_runN P O h.B_pos h.e_pos (etaInit_nonneg h) n
+
+/-- **(a)** every column of `lambda_vecs_EG_` is non-negative with L1 norm strictly below `B`
+    (uses only `0 < e`; the `1 +` of the denominator is what makes the bound strict). -/
+theorem loop_lambda_bounds {P : Params} (O : Oracles) (h : LoopHyp P) (n : Nat) :
+    ∀ v ∈ (runN P O n).lamCols, v.length = P.c.length ∧ (∀ x ∈ v, 0 ≤ x) ∧ v.sum < P.B :=
+  (loop_inv O h n).lam_good
+
+/-- **(b)** so is every running mean `lambda_EG` (the multiplier the EG certificate is evaluated at) -/
+theorem loop_lambdaEG_bounds {P : Params} (O : Oracles) (h : LoopHyp P) (n : Nat) :
+    ∀ v ∈ (runN P O n).lamEGs, v.length = P.c.length ∧ (∀ x ∈ v, 0 ≤ x) ∧ v.sum < P.B :=
+  (loop_inv O h n).lamEG_good
+
+/-- **(c, EG branch)** whenever the EG iterate was kept, `Qs[t] = Qsum / Qsum.sum()` is a probability vector —
+    no assumption on the LP solver. -/
+theorem loop_QEG_prob {P : Params} (O : Oracles) (h : LoopHyp P) (n : Nat) :
+    ∀ p ∈ (runN P O n).fromLP.zip (runN P O n).qs, p.1 = false → IsProb p.2 :=
+  (loop_inv O h n).qs_eg
+
+/-- **(c)** if every LP answer is a probability vector (= primal feasibility of the LP's equality row and
+    default bounds, `lp_feasible_iff` below), every entry of `Qs`, hence `weights_ = Qs[best_iter_]`, is one. -/
+theorem loop_Q_prob {P : Params} (O : Oracles) (h : LoopHyp P) (n : Nat) (hlp : ∀ k, IsProb (O.lp k).Q) :
+    ∀ q ∈ (runN P O n).qs, IsProb q :=
+  (loop_inv O h n).qs_prob hlp
+
+theorem loop_weights_prob {P : Params} (O : Oracles) (h : LoopHyp P) (hlp : ∀ k, IsProb (O.lp k).Q) (b : Nat)
+    (hb : bestIterOf (run P O) = some b) : IsProb ((run P O).qs.getD b []) := by
+  have hinv : Inv P O (run P O) := loop_inv O h P.maxIter
+  have hlt : b < (run P O).qs.length := by
+    rw [hinv.len_qs, ← hinv.len_gaps]; exact (bestIter_spec _ b hb).1
+  rw [List.getD_eq_getElem?_getD, List.getElem?_eq_getElem hlt]
+  exact loop_Q_prob O h P.maxIter hlp _ (List.getElem_mem hlt)
+
+/-- **(d)** `eta = (eta0 / B) * 0.8^k`, `k` = number of shrink events ≤ number of regret checks ≤ `t` -/
+theorem loop_eta_formula {P : Params} (O : Oracles) (h : LoopHyp P) (n : Nat) :
+    (runN P O n).eta = EGLoopGen.etaInit P.eta0 P.B * EGGen.shrinkEta ^ (runN P O n).shrinks ∧
+    (runN P O n).shrinks ≤ (runN P O n).checks ∧ (runN P O n).checks ≤ (runN P O n).t :=
+  ⟨(loop_inv O h n).eta_eq, (loop_inv O h n).shrinks_le, (loop_inv O h n).checks_le⟩
+
+/-- **(d)** the learning rates used by successive iterations never increase and never exceed `eta0 / B` -/
+theorem loop_eta_nonincreasing {P : Params} (O : Oracles) (h : LoopHyp P) (n : Nat) :
+    (runN P O n).etas.Pairwise (fun a b => b ≤ a) ∧
+    ∀ x ∈ (runN P O n).etas, (runN P O n).eta ≤ x ∧ x ≤ EGLoopGen.etaInit P.eta0 P.B :=
+  ⟨(loop_inv O h n).etas_mono, (loop_inv O h n).etas_hist⟩
+
+/-- **(e)** at most `max_iter` iterations; `last_iter_ = len(Qs) - 1 = t - 1`; `best_iter_ ≤ last_iter_` -/
+theorem loop_iterations {P : Params} (O : Oracles) (h : LoopHyp P) :
+    (run P O).t ≤ P.maxIter ∧ lastIterOf (run P O) = ((run P O).t : Int) - 1 ∧
+    ∀ b, bestIterOf (run P O) = some b → (b : Int) ≤ lastIterOf (run P O) := by
+  have hinv : Inv P O (run P O) := loop_inv O h P.maxIter
+  refine ⟨hinv.t_le, ?_, ?_⟩
+  · unfold lastIterOf EGLoopGen.lastIter
+    rw [hinv.len_qs]
+  · intro b hb
+    have := (bestIter_spec _ b hb).1
+    unfold lastIterOf EGLoopGen.lastIter
+    rw [hinv.len_qs, ← hinv.len_gaps]
+    omega
+
+/-- **(f)** the loop invariant `len(gaps) = len(Qs) = len(gaps_EG) = #columns of lambda_vecs_EG_ = t` -/
+theorem loop_lengths {P : Params} (O : Oracles) (h : LoopHyp P) (n : Nat) :
+    (runN P O n).gaps.length = (runN P O n).t ∧ (runN P O n).qs.length = (runN P O n).t ∧
+    (runN P O n).gapsEG.length = (runN P O n).t ∧ (runN P O n).lamCols.length = (runN P O n).t ∧
+    (runN P O n).t ≤ n := by
+  have hinv := loop_inv O h n
+  refine ⟨hinv.len_gaps, hinv.len_qs, hinv.len_gapsEG, hinv.len_lamCols, ?_⟩
+  clear hinv
+  induction n with
+  | zero => exact Nat.le_refl _
+  | succ n ih =>
+    show (iter P O (runN P O n)).t ≤ n + 1
+    cases hgo : ((runN P O n).done || decide (P.maxIter ≤ (runN P O n).t))
+    · rw [iter_go P O _ hgo]
+      show (runN P O n).t + 1 ≤ n + 1
+      omega
+    · rw [iter_stop P O _ hgo]; omega
+
+/-- **Early stop, for the modelled loop itself**: if the run ends with fewer than `max_iter` iterations, the
+    `break` was taken, more than `_MIN_ITER` iterations ran, and the gap of the RETURNED iterate (`best_gap_`) is
+    strictly below `nu`. -/
+theorem loop_early_stop {P : Params} (O : Oracles) (h : LoopHyp P) (hlt : (run P O).t < P.maxIter) :
+    (run P O).done = true ∧ EGGen.minIter < (run P O).t ∧
+    ∃ b, bestIterOf (run P O) = some b ∧ (run P O).gaps.getD b 0 < P.nu := by
+  have hinv : Inv P O (run P O) := loop_inv O h P.maxIter
+  have hd : (run P O).done = true := by
+    cases hdn : (run P O).done
+    · have := runN_t P O P.maxIter (Nat.le_refl _) hdn
+      unfold run at hlt; omega
+    · rfl
+  obtain ⟨g, hg, hbc⟩ := hinv.done_spec hd
+  simp only [EGGen.breakCond, Bool.and_eq_true, decide_eq_true_eq] at hbc
+  refine ⟨hd, ?_, bestIter_lt_of_last_lt _ g P.nu hg hbc.1⟩
+  have hpos : 0 < (run P O).t := by
+    have : (run P O).gaps ≠ [] := by intro h0; rw [h0] at hg; simp at hg
+    have := List.length_pos_iff.mpr this
+    rw [hinv.len_gaps] at this; exact this
+  have := hbc.2
+  omega
+
+end Loop
+
+/-! Non-vacuity for the loop: a 2-constraint run with a positive "exponential", two oracle answers. -/
+def exP : EGLoop.Params := ⟨4, 2, 1/100, 3, false, true, [1/10, 1/10], fun x => 1 + x * x⟩
+def exO : EGLoop.Oracles := ⟨fun k => if k % 2 = 0 then ⟨0, [1/2, -1/2]⟩ else ⟨1/2, [0, 0]⟩, fun _ => default⟩
+example : LoopHyp exP := ⟨by decide +kernel, fun x => by show 0 < 1 + x * x; nlinarith [mul_self_nonneg x], by decide +kernel⟩
+example : (EGLoop.run exP exO).t = 3 := by decide +kernel
+example : (EGLoop.run exP exO).lamCols.head? = some [4/3, 4/3] := by decide +kernel
+example : ((EGLoop.run exP exO).qs.getD 2 []).sum = 1 := by decide +kernel
 
 end C08
